@@ -157,6 +157,19 @@ func (b *litBuilder) lit(v sym.Value, t types.Type) string {
 			b.tooBig = true
 			return "nil"
 		}
+		if as, ok := b.heap[x.Obj].(sym.ArrS); ok {
+			// slice of composite elements of known number
+			off := b.scalar(x.Off)
+			if off+n > uint64(len(as.Elems)) {
+				b.unsup = "slice of composites out of range"
+				return "nil"
+			}
+			var fs []string
+			for _, e := range as.Elems[off : off+n] {
+				fs = append(fs, b.lit(e, st.Elem()))
+			}
+			return fmt.Sprintf("%s{%s}", ts, strings.Join(fs, ", "))
+		}
 		arr, ok := b.heap[x.Obj].(sym.ArrV)
 		if !ok {
 			b.unsup = "slice backing"
@@ -238,6 +251,7 @@ func Replay(w *World, o *Outcome, replayJSON string) *ReplayResult {
 		fmt.Fprintf(&sb, "\tfmt.Printf(\"REPLAY-ARG %s = %%#v\\n\", %s)\n", a, a)
 	}
 	var checkCond string
+	usesSpec := false
 	if ex, ok := o.Aux.(*sym.Expect); ok {
 		b.imports["reflect"] = "reflect"
 		var conds []string
@@ -269,6 +283,10 @@ func Replay(w *World, o *Outcome, replayJSON string) *ReplayResult {
 				fmt.Fprintf(&sb, "\t%s\n", p)
 			}
 			checkCond = cond
+			if strings.Contains(cond, "spec.") || strings.Contains(strings.Join(pre, " "), "spec.") {
+				usesSpec = true
+				b.imports["verif/spec"] = "spec"
+			}
 		}
 	}
 	if len(res) > 0 {
@@ -306,6 +324,14 @@ func Replay(w *World, o *Outcome, replayJSON string) *ReplayResult {
 	rel := strings.TrimPrefix(strings.TrimPrefix(pkg.Path(), ModPath), "/")
 	target := filepath.Join(RepoDir, rel, "zz_verif_replay_test.go")
 	ov := map[string]map[string]string{"Replace": {target: testFile}}
+	if usesSpec {
+		// make the executable specification importable: go.mod of the replay gets a local replace (overlay only)
+		if gm, err := os.ReadFile(filepath.Join(RepoDir, "go.mod")); err == nil {
+			gmFile := base + ".go.mod"
+			os.WriteFile(gmFile, []byte(string(gm)+"\nrequire verif/spec v0.0.0\n\nreplace verif/spec => "+filepath.Join(VerifDir, "spec")+"\n"), 0o644)
+			ov["Replace"][filepath.Join(RepoDir, "go.mod")] = gmFile
+		}
+	}
 	ovData, _ := json.Marshal(ov)
 	ovFile := base + ".overlay.json"
 	os.WriteFile(ovFile, ovData, 0o644)
